@@ -8,6 +8,7 @@ pub mod ir_sexp;
 pub mod query_gen;
 pub mod run;
 pub mod schema_gen;
+pub mod tagged_regex;
 pub mod worlds;
 
 use std::fmt;
